@@ -16,6 +16,7 @@ Obligations (the IEEE-754 binary32/binary64 layout is the oracle: W, mantissa bi
 """
 import re
 from facts import cres, cdef, op_local, strip_lt
+from rules import table as TB
 
 LAYOUT = {32: dict(M=23, E=8, bias=127), 64: dict(M=52, E=11, bias=1023)}
 WIDTH = {'u8': 8, 'i8': 8, 'u16': 16, 'i16': 16, 'u32': 32, 'i32': 32, 'u64': 64, 'i64': 64, 'usize': 64, 'isize': 64, 'u128': 128, 'i128': 128}
@@ -427,3 +428,77 @@ def _sign(rep, rule, A, fn, W):
         rep.ok(rule, key, 'sign decided by bit %d alone: clear -> Plus, set -> Minus' % (W - 1), fn.where(line))
     else:
         rep.violation(rule, key, 'sign bit clear must give Plus and set Minus; the code gives %s / %s' % (vz, vnz), fn.where(line))
+
+
+def _locals_read(x, out):
+    """every local an rvalue / operand list mentions (field-insensitive)"""
+    if isinstance(x, dict):
+        if 'pl' in x and isinstance(x['pl'], dict) and 'l' in x['pl']:
+            out.add(x['pl']['l'])
+            for pr in x['pl'].get('p') or []:
+                _locals_read(pr, out)
+        for k, v in x.items():
+            if k != 'pl':
+                _locals_read(v, out)
+    elif isinstance(x, list):
+        for v in x:
+            _locals_read(v, out)
+
+
+def returns_carry_sign(rep, F, rule='BITFIELD'):
+    """Every definition of the return value of parse_from_fNN (and its subnormal sibling) that depends on the float
+    depends on a value of type Sign, or hands the float itself to another converter of this crate (whose own sign
+    decision is checked above).  Backward data dependence over the MIR body, flow- and field-insensitive: the returns
+    that do not depend on the float at all (the +-0 shortcut) are exempt.  A shortcut return built from the mantissa
+    alone loses the sign of every negative input it serves."""
+    n = 0
+    for W in (32, 64):
+        for nm in ('parsing::parse_from_f%d' % W, 'parsing::parse_from_f%d_subnormal' % W):
+            fn = F.fns.get(nm)
+            if fn is None:
+                continue
+            defs = {}          # local -> list of (reads:set, delegates:bool)
+            for b, st in fn.stmts():
+                r = set()
+                _locals_read(st['rv'], r)
+                defs.setdefault(st['lhs']['l'], []).append((r, False, st.get('loc', {}).get('line')))
+            for b, t in fn.calls():
+                r = set()
+                _locals_read(t['args'], r)
+                res = cres(t) or ''
+                deleg = bool(re.search(r'(^|::)parsing::parse_from_f(32|64)(_subnormal)?$', TB._plain(res))) and any(op_local(a) is not None and fn.ty(op_local(a)) in ('f32', 'f64') for a in t['args'])
+                if t.get('dest') and 'l' in t['dest']:
+                    defs.setdefault(t['dest']['l'], []).append((r, deleg, t['loc']['line']))
+            floats = {i for i in range(1, fn.argc + 1) if fn.ty(i) in ('f32', 'f64')}
+            bad = None
+            cnt = 0
+            for reads, deleg, line in defs.get(0, []):
+                seen = set()
+                work = list(reads)
+                has_sign = False
+                dep_float = False
+                delegated = deleg
+                while work:
+                    l = work.pop()
+                    if l in seen:
+                        continue
+                    seen.add(l)
+                    if l in floats:
+                        dep_float = True
+                    if re.search(r'(^|::)Sign$', fn.ty(l).lstrip('&')):
+                        has_sign = True
+                    for r2, d2, _ln in defs.get(l, []):
+                        delegated = delegated or d2
+                        work.extend(r2)
+                cnt += 1
+                if dep_float and not has_sign and not delegated:
+                    bad = line
+            if not cnt:
+                continue
+            n += 1
+            key = fn.key + ':every-return-carries-the-sign'
+            if bad is not None:
+                rep.violation(rule, key, 'a return value computed from the float does not depend on any Sign value: every negative input served by this return comes out positive', fn.where(bad))
+            else:
+                rep.ok(rule, key, '%d definition(s) of the return value: each depends on a Sign value, delegates the float to a sibling converter, or does not depend on the float' % cnt, fn.where())
+    return n
